@@ -624,10 +624,12 @@ func (m *scanModel) effects(cfg smConfig, p *Path, t *smTrans) {
 	// the end-of-line trimming: the only slices taken of the line as passed in
 	// are line[:len(line)-2] after a CRLF test and line[:len(line)-1] after an
 	// LF test that succeeded
+	trimmedSeen := false
 	for _, ev := range p.Events {
 		if ev.Kind != EvSlice || ev.Addr == nil || ev.Addr.Op != OpParam || ev.Addr.Name != m.lineP.Name() {
 			continue
 		}
+		trimmedSeen = true
 		v := ev.Val
 		want := int64(0)
 		glob := ""
@@ -656,6 +658,26 @@ func (m *scanModel) effects(cfg smConfig, p *Path, t *smTrans) {
 		}
 		if !good {
 			problem("SM-ref", "state:"+cfg.State+"/eol-trim", "the line terminator is not removed as line[:len(line)-2] for CRLF / line[:len(line)-1] for LF: "+v.Canon(m.hook)+" — every later test and every parsed field sees other bytes than the line", ev.Pos)
+		}
+	}
+	// a terminated line that is looked at (any test beyond the terminator
+	// itself) is looked at without its terminator
+	if !trimmedSeen {
+		term := false
+		if v, ok := t.Lits["eol:crlf"]; ok && v {
+			term = true
+		}
+		if v, ok := t.Lits["eol:lf"]; ok && v {
+			term = true
+		}
+		other := 0
+		for n := range t.Lits {
+			if !strings.HasPrefix(n, "eol:") {
+				other++
+			}
+		}
+		if term && other > 0 {
+			problem("SM-ref", "state:"+cfg.State+"/eol-trim", "the line terminator is recognised but never removed: the tests that follow see the line with its CR/LF", p.Lits[0].Pos)
 		}
 	}
 	for _, ev := range p.Events {
